@@ -75,35 +75,11 @@ Proof.
   - apply loop_mono in H. lia.
 Qed.
 
-(* a typed element that occupies no octet is a zero-width octet array with the empty value *)
-Lemma typed_zero_wf e v : elem_typed e v = true -> elem_len e v = 0 -> wf_value e v = true.
-Proof.
-  unfold elem_typed. intros T Z. apply andb_true_iff in T as [T1 T3].
-  unfold rfc_width_ok in T1. unfold elem_len in Z. unfold wf_value.
-  destruct (ie_dt e); destruct v as [o|n|n|n|n|z|z|z|z|n|n|b0|o|s|n|n|o]; try discriminate T3;
-    try (apply N.eqb_eq in T1; rewrite T1 in Z; discriminate Z).
-  - destruct (ie_len e <? var_len) eqn:L.
-    + rewrite Z in T3 |- *. cbn [N.eqb negb orb] in T3. apply Nat.eqb_eq in T3. rewrite T3. reflexivity.
-    + pose proof (var_prefixed_pos (length (obytes o))). lia.
-  - pose proof (var_prefixed_pos (length s)). lia.
-Qed.
-
-Lemma zero_len_wf els : els_typed els = true -> record_len els = 0 -> wf_record els = true.
-Proof.
-  induction els as [|[e v] r IH]; intros T Z; [reflexivity|].
-  cbn [els_typed forallb fst snd] in T. apply andb_true_iff in T as [T1 T2].
-  rewrite record_len_cons in Z. cbn [wf_record forallb fst snd].
-  rewrite (typed_zero_wf e v T1) by lia. cbn [andb]. apply IH; [exact T2|lia].
-Qed.
-
 (* (e): a record whose buffer was produced without an encode error carries only well-formed values *)
 Lemma get_buffer_wf els b :
   get_buffer els = Ok (b, 0%nat) -> els_typed els = true -> wf_record els = true.
 Proof.
-  unfold get_buffer. intros H T.
-  destruct (Nat.eqb_spec (N.to_nat (record_len els)) 0) as [Z|NZ].
-  - apply zero_len_wf; [exact T|lia].
-  - eapply loop_wf; eassumption.
+  unfold get_buffer. intros H T. eapply loop_wf; eassumption.
 Qed.
 
 (* the same for a record whose element values may have changed since it was built: the buffer
@@ -111,12 +87,11 @@ Qed.
    includes "the fields do not fill the buffer") the current values are well-formed and occupy
    exactly [len] octets *)
 Lemma get_buffer_n_wf len els b :
-  get_buffer_n len els = Ok (b, 0%nat) -> len = record_len els \/ len <> 0 ->
+  get_buffer_n len els = Ok (b, 0%nat) ->
   els_typed els = true -> wf_record els = true /\ len = record_len els.
 Proof.
-  intros H C T.
-  assert (E : len = record_len els).
-  { destruct C as [C|C]; [exact C|]. eapply get_buffer_n_noerr; eassumption. }
+  intros H T.
+  assert (E : len = record_len els) by (eapply get_buffer_n_noerr; eassumption).
   split; [|exact E]. subst len. rewrite get_buffer_n_eq in H. eapply get_buffer_wf; eassumption.
 Qed.
 
@@ -287,15 +262,14 @@ Qed.
 Lemma data_recs_wf s :
   s_type s = SData -> homogeneous s = true -> set_typed s = true ->
   (forall r, In r (s_recs s) -> exists b, rec_buffer_e r = Ok (b, 0%nat)) ->
-  (forall r, In r (s_recs s) -> good_rec r \/ rec_len r <> 0) ->
   forall r, In r (s_recs s) -> rec_is_data r = true /\ wf_record (rec_els r) = true.
 Proof.
-  intros Ty Ho Tp Hb HG r Hr. specialize (HG r Hr). unfold homogeneous in Ho. rewrite Ty in Ho.
+  intros Ty Ho Tp Hb r Hr. unfold homogeneous in Ho. rewrite Ty in Ho.
   rewrite forallb_forall in Ho. specialize (Ho r Hr).
   unfold set_typed in Tp. rewrite forallb_forall in Tp. specialize (Tp r Hr).
   rewrite Ho in Tp. cbn [negb orb] in Tp. destruct (Hb r Hr) as [b Eb].
   split; [exact Ho|]. destruct r as [? ? ? ? ?|tid fc els len]; [discriminate|].
-  cbn [rec_els rec_buffer_e good_rec rec_len] in *. eapply get_buffer_n_wf; eassumption.
+  rewrite rec_buffer_e_data in Eb. cbn [rec_els] in *. eapply get_buffer_n_wf; eassumption.
 Qed.
 
 Lemma tpl_pairs_same s : C09drv.tpl_pairs s = C09_lemmas.tpl_pairs s.
@@ -324,8 +298,7 @@ Proof.
     assert (Recs : s_type s = SData ->
               forall r, In r (s_recs s) -> rec_is_data r = true /\ wf_record (rec_els r) = true).
     { intros Ty. destruct (Hdata Ty) as (fc & _ & Hr). apply data_recs_wf; try assumption.
-      - intros r Hin. destruct (Hr r Hin) as (_ & _ & Hb). exact Hb.
-      - intros r Hin. left. now apply (good_rec_set_of ops). }
+      intros r Hin. destruct (Hr r Hin) as (_ & _ & Hb). exact Hb. }
     apply andb_true_iff. split.
     + destruct (s_type s) eqn:Ty; [reflexivity| |].
       * destruct (Hdata eq_refl) as (fc & Hin & Hr).
@@ -380,9 +353,9 @@ Qed.
 
 (* The oracle holds on the model's observation of every case within the hypotheses. *)
 Theorem c09_oracle_on_model c :
-  c09_wf c (fst (hist_model cur c)) = true -> C09_holds_on c (hist_model cur c) = true.
+  c09_wf_h c (fst (hist_model cur c)) = true -> C09_holds_on_h c (hist_model cur c) = true.
 Proof.
-  unfold c09_wf, C09_holds_on, hist_model, hist_of. cbn [fst snd]. intros H.
+  unfold c09_wf_h, C09_holds_on_h, hist_model, hist_of. cbn [fst snd]. intros H.
   apply andb_true_iff in H as [H1 H2]. apply no_panic_obs in H2.
   apply c09_walk_model; try assumption.
   - unfold st_wf, init_exp. cbn [x_seq]. now rewrite u32_idem.
@@ -440,8 +413,7 @@ Proof.
     apply (demand_template st (ops_of ds) 0 bytes HW Hw Ty Pr Sc).
   - apply (demand_data st (ops_of ds) 0 bytes HW Hw Ty); [|exact Sc].
     intros r0 Hin _.
-    apply (data_recs_wf s Ty Ho Tp (send_ok_data_bufs st s 0 _ R Ty)
-             (fun r Hr => or_introl (good_rec_set_of (ops_of ds) r Hr)) r0 Hin).
+    apply (data_recs_wf s Ty Ho Tp (send_ok_data_bufs st s 0 _ R Ty) r0 Hin).
   - unfold c02_in_scope in Sc. rewrite Ty in Sc. discriminate.
 Qed.
 
